@@ -64,6 +64,7 @@ type LemmaEvidence struct {
 
 type Coverage struct {
 	Lemmas           []LemmaEvidence          `json:"lemmas,omitempty"`
+	MethodSets       []map[string]interface{} `json:"method_set_guards,omitempty"`
 	States           int                      `json:"states"`
 	Transitions      int                      `json:"transitions"`
 	TracesValidated  int                      `json:"traces_validated_against_impl"`
